@@ -2,26 +2,26 @@
 # regenerates MANIFEST.json from the property table below (development helper)
 import json
 decided = {
-"C01":"apply is deterministic and exhaustive in the shape of the code (no identifier allocation under map iteration, emitted operations have local and remote arms, remote apply reads only transmitted fields, local/remote variants not mixed, comparison and LWW guards oriented correctly)",
-"C02":"orientation of every last-writer-wins decision: Compare is the lexicographic sign function; every overwrite of an existing element is guarded on all paths by 'existing strictly older than incoming' on the right clock; updates never touch tombstones; sibling skip loop newest-first; counter only adds",
-"C03":"validate-before-consume: positions validated before an operation is built, nil refused, operation id rolled back on every failing path, a failed local execution queues nothing, no result used before its error is checked",
-"C04":"identity addressing of remote list operations, no unlinking/forgetting of nodes, one registration per insert under the order time, size decremented once per live element, index walks skip tombstones, no resurrection, newest-first sibling order by the immutable order time",
-"C05":"order and error-gating of the client's apply steps and of the server's handler steps, forward-only client checkpoint, log-ordered pull range from the checkpoint, normal forms of the checkpoint arithmetic, closed set of numbering writers",
-"C06":"shape of the server's sequence assignment (accept iff seq==Cseq+1 with one Sseq increment, ignore iff seq<=Cseq, else MissingOps), injective _id format under the unique index, commit order, no storage error dropped",
-"C07":"the three structural defences against lost/duplicated/delayed messages: duplicate arm on the server, forward-only client checkpoint, origin filter for own operations (known finding F15: absent)",
-"C08":"storage errors surface and leave through the error pack; the client turns every server code into a returned error; reply/unlock discipline covers the panic path; atomicity of the push commit (known finding F14: two plain writes)",
-"C09":"commit/rollback gating of transactions, rollback = restore then replay with errors propagated, announced length of a received unit checked against the batch before slicing and applying",
-"C10":"writer/reader agreement of the snapshot state: every state field written on restore and read on capture (or rebuilt), DTO key agreement, GetMeta/SetMeta agreement, list index keyed by order time after restore, export/import pair used by rollback and server rebuild",
-"C11":"provenance of what the server stores (state and version from one rebuild), rebuild range and returned version, version recorded in the visible document, snapshot update is a proper critical section",
-"C12":"lock discipline: every TryLock result guards its section, release on every exit including panic, no request context in the process-wide lock map, atomic one-mutex-per-name, injective lock names over (collection number, key), one reply per handler",
-"C13":"the (option bits, case) dispatch table against the contract (known finding F13: six cells proceed), classification consults type/visibility/subscription, client state machine, refusal reaches the error handler",
-"C14":"encode/decode/store/echo tables agree exhaustively; body structs fully serialisable; snapshot type arithmetic; stored document keeps and restores every operation field; container kinds agree between local and decoded construction",
-"C15":"injective identity key, total-order comparison, fresh delimiter for every repeatedly created element, closed set of numbering writers with expected increments/resets, clock sync before every remote apply",
-"C16":"exactly one reply per handler on every exit with fields initialised first, storage mutated only by the final commit, no error reported as success, every RPC answers, client handles every error code and keeps its semaphore usable, unknown datatype refused (known finding F19)",
-"C17":"every lookup and purge scoped by collection: key lookups paired with the collection number, client bound to its collection, purge filters on the right field and value, fresh filter values, lock names and key lookup over (collection number, key); id-only lookup collection-checked (known finding F12: not)",
-"C18":"publish gating (post-reply goroutine, no error, at least one stored operation), notification content and topic provenance, topic agreement, own-notification filter, semaphore/re-check discipline of the realtime path",
-"C19":"multi-operation patch is one transaction aborting on first failure, RFC 6901 decoding order, supported operation kinds, volatile REST client never registered, REST push result inspected (known finding F17: discarded)",
-"C20":"which accesses of the mutex-protected fields lie outside the lock brackets (known findings F18a-c), every exchange under the manager's semaphore (F18d) and map accesses (F18e), release of semaphore and mutex on every exit, transaction identifier taken after the lock",
+"C01":"apply is deterministic and exhaustive in the shape of the code (no identifier allocation under map iteration, emitted operations have local and remote arms, remote apply reads only transmitted fields, local/remote variants not mixed, comparison and LWW guards oriented correctly); remote map/object operations always reach the timestamp decision; forward-only checkpoint; stored operations keep every field",
+"C02":"orientation of every last-writer-wins decision: Compare is the lexicographic sign function; every overwrite of an existing element is guarded on all paths by 'existing strictly older than incoming' on the right clock; updates never touch tombstones; sibling skip loop newest-first; counter only adds; remote put/remove never short-cut on liveness; clock synchronised on replay; stored operations keep their timestamps",
+"C03":"validate-before-consume: positions validated before an operation is built, nil refused, operation id rolled back on every failing path, a failed local execution queues nothing, no result used before its error is checked; range validation covers the whole range without overflowing sums; reflective null rejection (typed nil, nested null); parsed indexes range-checked, paths below scalars and whole-document patch operations refused; no assertion on or Document around a possibly-nil result; a remote operation is recorded in the transaction buffer",
+"C04":"identity addressing of remote list operations, no unlinking/forgetting of nodes, one registration per insert under the order time, size decremented once per live element, index walks skip tombstones, no resurrection, newest-first sibling order by the immutable order time; transmitted targets of every local list/array operation are order times; committed operations recorded for rollback regardless of origin",
+"C05":"order and error-gating of the client's apply steps and of the server's handler steps, forward-only client checkpoint, log-ordered pull range from the checkpoint, normal forms of the checkpoint arithmetic, closed set of numbering writers; option-bit writer/reader agreement; remote operations recorded for the rollback replay",
+"C06":"shape of the server's sequence assignment (accept iff seq==Cseq+1 with one Sseq increment, ignore iff seq<=Cseq, else MissingOps), injective _id format under the unique index, commit order, no storage error dropped; ordered bulk insert; end of log written back only by a handler that read it; cursor iteration errors consulted; option-bit agreement",
+"C07":"the three structural defences against lost/duplicated/delayed messages: duplicate arm on the server, forward-only client checkpoint, origin filter for own operations (known finding F15: absent); option-bit writer/reader agreement and aliasing accessor; atomic lock registry; subscribe reset only while waiting; retried subscription (known finding F43)",
+"C08":"storage errors surface and leave through the error pack; the client turns every server code into a returned error; reply/unlock discipline covers the panic path; atomicity of the push commit (known finding F14: two plain writes); recover() called by the deferred function itself; option-bit agreement; cursor iteration errors consulted",
+"C09":"commit/rollback gating of transactions, rollback = restore then replay with errors propagated, announced length of a received unit checked against the batch before slicing and applying; a fresh rollback point forgets the replay list; Replay tells own from foreign operations by client id; import refreshes the rollback point; nested transactions join the enclosing one; a misfit unit is an error; member errors and checkpoint-before-apply (known findings F44, F45)",
+"C10":"writer/reader agreement of the snapshot state: every state field written on restore and read on capture (or rebuilt), DTO key agreement, GetMeta/SetMeta agreement, list index keyed by order time after restore, export/import pair used by rollback and server rebuild; capture and restore are total (no early exit skips part of the state); import refreshes the rollback point; numbering writers",
+"C11":"provenance of what the server stores (state and version from one rebuild), rebuild range and returned version, version recorded in the visible document, snapshot update is a proper critical section; ordered bulk insert; a misfit unit fails the rebuild; the rebuilt replica is reset on every path",
+"C12":"lock discipline: every TryLock result guards its section, release on every exit including panic, no request context in the process-wide lock map, atomic one-mutex-per-name, injective lock names over (collection number, key), one reply per handler; bounded wait on the lease context; one lock name per datatype regardless of request options; no removal from the lock registry",
+"C13":"the (option bits, case) dispatch table against the contract (known finding F13: six cells proceed), classification consults type/visibility/subscription, client state machine, refusal reaches the error handler; every accepted response subscribes a waiting replica; retried subscription adopts the datatype's DUID (known finding F43); option-bit agreement; no assertion on a refused creation's nil result",
+"C14":"encode/decode/store/echo tables agree exhaustively; body structs fully serialisable; snapshot type arithmetic; stored document keeps and restores every operation field; container kinds agree between local and decoded construction; capture/restore totality; list index keyed by order time; unit bounds",
+"C15":"injective identity key, total-order comparison, fresh delimiter for every repeatedly created element, closed set of numbering writers with expected increments/resets, clock sync before every remote apply; whole transaction buffer (marker included) recorded for rollback; Replay by client id",
+"C16":"exactly one reply per handler on every exit with fields initialised first, storage mutated only by the final commit, no error reported as success, every RPC answers, client handles every error code and keeps its semaphore usable, unknown datatype refused (known finding F19); recover() effective; bounded lock wait; option-bit agreement",
+"C17":"every lookup and purge scoped by collection: key lookups paired with the collection number, client bound to its collection, purge filters on the right field and value, fresh filter values, lock names and key lookup over (collection number, key); id-only lookup collection-checked (known finding F12: not); response packs applied by their own key; unique indexes include the collection number; reserved collection names refused",
+"C18":"publish gating (post-reply goroutine, no error, at least one stored operation), notification content and topic provenance, topic agreement, own-notification filter, semaphore/re-check discipline of the realtime path; key recovered from the topic as the inverse of its format; re-delivery re-check covers every datatype; a replica that is behind syncs (no silent drop)",
+"C19":"multi-operation patch is one transaction aborting on first failure, RFC 6901 decoding order, supported operation kinds, volatile REST client never registered, REST push result inspected (known finding F17: discarded); patch paths resolved from the patched Document; nested transactions join the enclosing one; rebuilt replica reset before patching; segments cut only under len >= 2",
+"C20":"which accesses of the mutex-protected fields lie outside the lock brackets (known findings F18a-c), every exchange under the manager's semaphore (F18d) and map accesses (F18e), release of semaphore and mutex on every exit, transaction identifier taken after the lock; nested transactions never re-lock; remote operations recorded in the transaction buffer; Replay by client id",
 }
 undecided = {
 "C01":"that the merge functions commute over all interleavings (the property itself)",
